@@ -49,6 +49,11 @@ time_t Time::ParseRfc1123(const char *s)
 }
 
 #define T31 2147483647u
+#ifdef VF_THOROUGH
+#define T(quick, thorough) thorough
+#else
+#define T(quick, thorough) quick
+#endif
 
 struct World {
     HttpRequest *req;
@@ -88,7 +93,8 @@ static Req symbolicRequest(World &w)
     r.cc = vf_concretize(vf_bool("req_has_cc")) ? symbolicCc("req_cc", false) : nullptr;
     w.req->cache_control = r.cc;
     w.req->flags.ignoreCc = r.ignoreCc = vf_bool("ignoreCc");     // http_port ignore-cc (not a default)
-    w.req->flags.ims = r.ims = vf_bool("ims");
+    // (If-Modified-Since matters only with refresh-ims/refresh_all_ims, which are off: the flag only doubles the paths)
+    w.req->flags.ims = r.ims = T(false, vf_bool("ims"));
     w.req->flags.nocacheHack = r.reload = vf_bool("nocacheHack");
     return r;
 }
@@ -110,7 +116,8 @@ extern "C" void c12_verdict(void)
 {
     defaults();
     World w;
-    Config.maxStale = (time_t)(int32_t)vf_nondet_u32("config_max_stale"); // default 1 week; any value (negative = no limit)
+    // max_stale of squid.conf: default 1 week; thorough: any value (negative = no limit). It only selects between STALE_* codes.
+    Config.maxStale = T(604800, (time_t)(int32_t)vf_nondet_u32("config_max_stale"));
     const int64_t now = vf_range(0, T31, "now");
     squid_curtime = (time_t)now;
     const int64_t ts = vf_range(0, T31, "timestamp");
@@ -125,54 +132,50 @@ extern "C" void c12_verdict(void)
     w.entry->flags = eflags;
     const Req r = symbolicRequest(w);
     HttpHdrCc *repCc = vf_concretize(vf_bool("rep_has_cc")) ? symbolicCc("rep_cc", false) : nullptr;
+#ifndef VF_THOROUGH
+    // quick: of the stored reply's directives only immutable (the one that changes a verdict); stale-if-error only sets a request flag
+    if (repCc) vf_assume(!ccHas(repCc, CC_STALE_IF_ERROR));
+#endif
     w.rep->cache_control = repCc;
 
     const int reason = verdictOf(w);
 
+    // (bitwise operators and implications instead of if/&&: the oracle itself must not split paths at -O0)
     const bool stale = reason >= 200;
     const bool always = (eflags >> ENTRY_REVALIDATE_ALWAYS) & 1, ifStale = (eflags >> ENTRY_REVALIDATE_STALE) & 1;
     const bool ccOn = !r.ignoreCc;
-    const bool maxStaleGiven = ccOn && ccHas(r.cc, CC_MAX_STALE);
-    const int64_t minFresh = (ccOn && ccHas(r.cc, CC_MIN_FRESH)) ? r.cc->min_fresh : 0;
-    const bool passed = E > -1 && now >= E;
-    const int64_t age = now > ts ? now - ts : 0;
+    const bool maxStaleGiven = ccOn & ccHas(r.cc, CC_MAX_STALE);
+    const int64_t maxStale = r.cc ? r.cc->max_stale : -1, maxAge = r.cc ? r.cc->max_age : -1;
+    const int64_t minFresh = (r.cc ? r.cc->min_fresh : 0) * (int64_t)(ccOn & ccHas(r.cc, CC_MIN_FRESH));
+    const bool passed = (E > -1) & (now >= E);
+    const int64_t age = (now - ts) * (int64_t)(now > ts);
 
-    if (passed && !maxStaleGiven) {
-        vf_assert(stale, "explicit freshness lifetime passed and no request max-stale: the verdict is STALE");
-        vf_reach("expired-stale");
-    }
-    if (passed && maxStaleGiven && r.cc->max_stale != HttpHdrCc::MAX_STALE_ANY && now - E >= (int64_t)r.cc->max_stale) {
-        vf_assert(stale, "stale by more than the request's max-stale: the verdict is STALE");
-        vf_reach("beyond-max-stale");
-    }
-    if (ccOn && ccHas(r.cc, CC_MAX_AGE) && (r.cc->max_age == 0 || age > (int64_t)r.cc->max_age)) {
-        // KNOWN-FINDING candidate: refreshCheck() ignores the request's max-age (also max-age=0) when the stored reply carries
-        // Cache-Control: immutable (RFC 8246), so "Cache-Control: max-age=0" does not reach the origin while such a reply is
-        // fresh. Excluded here: stored reply with immutable.
-        if (!ccHas(repCc, CC_IMMUTABLE)) {
-            vf_assert(stale, "request max-age=0 or max-age smaller than the age: the verdict is STALE");
-            vf_reach("request-max-age");
-        }
-    }
-    if (ccOn && r.reload) {
-        vf_assert(stale, "client reload (no-cache) with the default rule: the verdict is STALE");
-        vf_reach("reload");
-    }
-    if (always || (ifStale && passed)) {
-        vf_assert(reason == STALE_MUST_REVALIDATE, "reply marked no-cache/private, or must-revalidate and expired: STALE_MUST_REVALIDATE whatever the request says");
-        vf_reach("must-revalidate");
-    }
-    if (reason == FRESH_EXPIRES) {
-        vf_assert(E > -1 && E > now + minFresh, "FRESH_EXPIRES only while the explicit lifetime (less min-fresh) has not passed");
-        vf_reach("fresh-expires");
-    }
-    if (reason == FRESH_MIN_RULE || reason == FRESH_LMFACTOR_RULE)
-        vf_assert(E <= -1, "heuristic freshness only without an explicit lifetime");
-    if (reason == FRESH_REQUEST_MAX_STALE_ALL || reason == FRESH_REQUEST_MAX_STALE_VALUE) {
-        vf_assert(maxStaleGiven && !always && !(ifStale && passed), "max-stale verdicts only for a honoured request max-stale on an entry not marked for revalidation");
-        vf_reach("fresh-by-max-stale");
-    }
-    reachEither(stale, "stale", "fresh");
+    const bool a1 = passed & !maxStaleGiven;
+    vf_assert(!a1 | stale, "explicit freshness lifetime passed and no request max-stale: the verdict is STALE");
+    const bool a1b = passed & maxStaleGiven & (maxStale != HttpHdrCc::MAX_STALE_ANY) & (now - E >= maxStale);
+    vf_assert(!a1b | stale, "stale by more than the request's max-stale: the verdict is STALE");
+    // KNOWN-FINDING candidate: refreshCheck() ignores the request's max-age (also max-age=0) when the stored reply carries
+    // Cache-Control: immutable (RFC 8246), so "Cache-Control: max-age=0" does not reach the origin while such a reply is
+    // fresh. Excluded here: stored reply with immutable.
+    const bool a2 = ccOn & ccHas(r.cc, CC_MAX_AGE) & ((maxAge == 0) | (age > maxAge)) & !ccHas(repCc, CC_IMMUTABLE);
+    vf_assert(!a2 | stale, "request max-age=0 or max-age smaller than the age: the verdict is STALE");
+    const bool a3 = ccOn & r.reload;
+    vf_assert(!a3 | stale, "client reload (no-cache) with the default rule: the verdict is STALE");
+    const bool a4 = always | (ifStale & passed);
+    vf_assert(!a4 | stale, "reply marked no-cache/private, or must-revalidate and expired: STALE whatever the request says");
+    vf_assert((reason != FRESH_EXPIRES) | ((E > -1) & (E > now + minFresh)), "FRESH_EXPIRES only while the explicit lifetime (less min-fresh) has not passed");
+    vf_assert(((reason != FRESH_MIN_RULE) & (reason != FRESH_LMFACTOR_RULE)) | (E <= -1), "heuristic freshness only without an explicit lifetime");
+    const bool byMaxStale = (reason == FRESH_REQUEST_MAX_STALE_ALL) | (reason == FRESH_REQUEST_MAX_STALE_VALUE);
+    vf_assert(!byMaxStale | (maxStaleGiven & !a4), "max-stale verdicts only for a honoured request max-stale on an entry not marked for revalidation");
+    // vacuity labels: one per path, by priority
+    if (a4) vf_reach("must-revalidate");
+    else if (a2) vf_reach("request-max-age");
+    else if (a3) vf_reach("reload");
+    else if (a1b) vf_reach("beyond-max-stale");
+    else if (a1) vf_reach("expired-stale");
+    else if (byMaxStale) vf_reach("fresh-by-max-stale");
+    else if (reason == FRESH_EXPIRES) vf_reach("fresh-expires");
+    else vf_reach("other");
     WITNESS_POINT();
 }
 
@@ -226,7 +229,8 @@ extern "C" void c12_expiry(void)
     WITNESS_POINT();
 }
 
-extern "C" void c12_chain(void)
+// plain later request (no Cache-Control, no reload): K1 covers what requests can change
+static void chain(const bool withLastModified)
 {
     defaults();
     World w;
@@ -234,18 +238,20 @@ extern "C" void c12_chain(void)
     // receipt
     const int64_t t0 = vf_range(0, T31, "received");
     squid_curtime = (time_t)t0;
+    if (withLastModified) {
+        markL = (time_t)vf_range(0, T31, "last_modified");
+        field(w.rep->header, Http::HdrType::LAST_MODIFIED, "@L");
+    }
     const Hdr h = symbolicReply(w, t0);
     w.entry->timestamp = -1; w.entry->expires = -1; w.entry->lastModified_ = -1; // as new StoreEntry
     w.entry->timestampsSet();
     vf_observe("timestamp", (uint64_t)w.entry->timestamp); vf_observe("entry_expires", (uint64_t)w.entry->expires);
-    // marks set by HttpStateData::haveParsedReplyHeaders() (C11 K2): any
-    const uint16_t eflags = vf_nondet_u16("entry_flags");
-    w.entry->flags = eflags;
+    w.entry->flags = 0; // no revalidation marks (they can only add STALE verdicts, see K1)
     // a later request
     const int64_t now = vf_range(0, T31, "now");
     vf_assume(now >= t0);
     squid_curtime = (time_t)now;
-    const Req r = symbolicRequest(w);
+    w.req->cache_control = nullptr;
 
     const int reason = verdictOf(w);
 
@@ -257,11 +263,12 @@ extern "C" void c12_chain(void)
     else if (h.hasExpires) L = h.expiresValid ? h.X - dateRef : 0;
     else explicitL = false;
     const int64_t resident = now - t0;
-    const bool byMaxStale = reason == FRESH_REQUEST_MAX_STALE_ALL || reason == FRESH_REQUEST_MAX_STALE_VALUE;
     if (explicitL && resident >= L) {
-        vf_assert(reason >= 200 || byMaxStale, "explicit freshness lifetime (s-maxage | max-age | Expires - Date) passed: STALE unless the request's max-stale allows it");
+        vf_assert(reason >= 200, "explicit freshness lifetime (s-maxage | max-age | Expires - Date) passed: the verdict is STALE");
         vf_reach("lifetime-passed");
     }
-    if (reason < 200 && !byMaxStale) vf_reach("fresh");
+    if (reason < 200) vf_reach("fresh");
     WITNESS_POINT();
 }
+extern "C" void c12_chain(void) { chain(false); }
+extern "C" void c12_chain_lm(void) { chain(true); }
